@@ -224,6 +224,63 @@ class Judge:
             out = self.tamper(site, out)
         return out
 
+    # ------------------------------------------------------------------ results are values
+    def keep(self, site, obj, rec, shape):
+        """Remember a returned object together with a snapshot of its value at return time: in the spec a
+        result is a value, so no later operation may change it (checked after the whole case has been replayed)."""
+        if isinstance(obj, np.ndarray):
+            self.kept.append((site, obj, obj.copy(), rec, shape))
+        elif isinstance(obj, dict):
+            self.kept.append((site, obj, dict(obj), rec, shape))
+
+    def verify_kept(self):
+        seen = set()
+        for site, obj, snap, rec, shape in self.kept:
+            same = np.array_equal(obj, snap, equal_nan=True) if isinstance(obj, np.ndarray) else dict(obj) == snap
+            if not same and (site, shape) not in seen:
+                seen.add((site, shape))
+                self.fail(site, "result-changed-by-a-later-call", shape,
+                          f"returned {snap if not isinstance(snap, np.ndarray) else snap.tolist()} but the same object reads "
+                          f"{obj.tolist() if isinstance(obj, np.ndarray) else dict(obj)} after later calls on the same POMDP", rec)
+        for name, snap in self.matrix_snaps.items():
+            try:
+                cur = np.asarray(getattr(self.p, name))
+            except Exception:                                   # noqa: BLE001
+                continue
+            if cur.shape != snap.shape or not np.array_equal(cur, snap):
+                self.fail(name, "result-changed-by-a-later-call", None, f"{name} changed while the filter functions were used")
+        self.ctx.count("returned_objects_rechecked_after_the_whole_case", len(self.kept))
+        self.kept = []
+
+    def probe_recompute(self, site, shape, rec, fn, *args):
+        """Call, let the caller scribble over the returned object, call again with the same arguments: the
+        second result must be the same value (a result must not be served from an object the caller owns)."""
+        first = self.call(site, shape, rec, fn, *args)
+        if first is None:
+            return
+        if isinstance(first, np.ndarray):
+            snap = first.copy()
+            if not first.flags.writeable:
+                return
+            first[...] = 7.0
+        elif isinstance(first, dict):
+            snap = dict(first)
+            first.clear()
+        else:
+            return
+        second = self.call(site, shape, rec, fn, *args)
+        if second is None:
+            return
+        if isinstance(snap, np.ndarray):
+            same = isinstance(second, np.ndarray) and second.shape == snap.shape and np.allclose(second, snap, rtol=1e-9, atol=1e-15, equal_nan=True)
+        else:
+            same = set(second.keys()) == set(snap.keys()) and all(abs(second[k] - snap[k]) <= 1e-9 * abs(snap[k]) + 1e-15 for k in snap)
+        if not same:
+            self.fail(site, "recomputed-after-the-caller-mutated-the-returned-object", shape,
+                      f"first call returned {snap if not isinstance(snap, np.ndarray) else snap.tolist()}, the caller overwrote that "
+                      f"object, the same call now returns {second.tolist() if isinstance(second, np.ndarray) else dict(second)}", rec)
+        self.ctx.count("mutate_then_recompute_probes")
+
     # ------------------------------------------------------------------ set-up
     def setup(self):
         from msdm.core.pomdp import BeliefMDP
@@ -272,6 +329,12 @@ class Judge:
         if self.vec_ok:
             self.check_observation_tensor()
         self.bm = BeliefMDP(p)
+        self.kept = []
+        self.zero_atom_drift = False
+        self.matrix_snaps = {}
+        if self.vec_ok:
+            for name in ("transition_matrix", "observation_matrix"):
+                self.matrix_snaps[name] = np.array(getattr(p, name), dtype=float, copy=True)
 
         from msdm.core.pomdp.alphavectorpolicy import AlphaVectorPolicy
         self.alpha = m.get("alpha")
@@ -418,6 +481,16 @@ class Judge:
                 ctx.count("nodes_with_unavailable_actions")
             if self.alpha and len(h) <= 1:
                 self.check_alpha_values(rec, rag, eb, la, allowed, shape)
+            if not h and allowed:
+                a0 = allowed[self.trng.randrange(len(allowed))]
+                o0 = self.trng.randrange(NO)
+                ps = shape + "+probe"
+                self.probe_recompute("predictive_observation_dist", ps, rec, p.predictive_observation_dist, inp, B.alabel[a0])
+                self.probe_recompute("state_estimator", ps, rec, p.state_estimator, inp, B.alabel[a0], B.olabel[o0])
+                if self.vec_ok:
+                    self.probe_recompute("predictive_observation_vec", ps, rec, p.predictive_observation_vec, rv, self.apos[a0])
+                    if o0 in self.opos:
+                        self.probe_recompute("state_estimator_vec", ps, rec, p.state_estimator_vec, rv, self.apos[a0], self.opos[o0])
             # ---- predictive observation distribution (dictionary and vector)
             for a in allowed:
                 exp = [F(la["obs"][a][o], den) for o in range(NO)]
@@ -425,6 +498,7 @@ class Judge:
                     raise TLCFailure(f"case {self.idx}: emitted predictive distribution does not sum to 1")
                 pod = self.call("predictive_observation_dist", shape, rec, p.predictive_observation_dist, inp, B.alabel[a])
                 if pod is not None:
+                    self.keep("predictive_observation_dist", pod, rec, shape)
                     tot = sum(pod.values())
                     if not abs(tot - 1) <= TOL:
                         self.fail("predictive_observation_dist", "not-normalised", shape, f"sums to {tot!r}", rec)
@@ -438,6 +512,7 @@ class Judge:
                     pov = self.call("predictive_observation_vec", shape, rec, p.predictive_observation_vec, rv, self.apos[a])
                     if pov is not None:
                         pov = np.asarray(pov, dtype=float)
+                        self.keep("predictive_observation_vec", pov, rec, shape)
                         if pov.shape != (len(self.ol),):
                             self.fail("predictive_observation_vec", "shape", shape, f"shape {pov.shape}", rec)
                         else:
@@ -474,6 +549,8 @@ class Judge:
                         # dictionary version
                         nd = self.call("state_estimator", oshape, child, p.state_estimator, inp, B.alabel[a], B.olabel[o])
                         okd = nd is not None
+                        if okd:
+                            self.keep("state_estimator", nd, child, oshape)
                         if nd is not None:
                             vals = list(nd.values())
                             if live:
@@ -499,6 +576,7 @@ class Judge:
                             nv = self.call("state_estimator_vec", oshape, child, p.state_estimator_vec, rv, self.apos[a], self.opos[o])
                             if nv is not None:
                                 nv = np.asarray(nv, dtype=float)
+                                self.keep("state_estimator_vec", nv, child, oshape)
                                 if nv.shape != (len(self.sl),):
                                     self.fail("state_estimator_vec", "shape", oshape, f"shape {nv.shape}", child)
                                     nv = None
@@ -670,6 +748,7 @@ class Judge:
                 matched = {}
                 rowok = row is not None
                 if row is not None:
+                    self.keep("BeliefMDP.next_state_dist", row, rec, shape)
                     items = list(row.items())
                     tot = sum(pr for _, pr in items)
                     if not abs(tot - 1) <= TOL or any(not (pr >= 0) for _, pr in items):
@@ -687,6 +766,14 @@ class Judge:
                             rowok = False
                             continue
                         if pr == 0:
+                            # a zero-probability atom does not change the distribution (and reachable_states skips it):
+                            # no clause of the statement is broken, but the reference machine lists no such successor
+                            if not abs(sum(prs) - 1) <= TOL:
+                                if not self.zero_atom_drift:
+                                    self.zero_atom_drift = True
+                                    ctx.drift("BeliefMDP.next_state_dist:zero-probability-entry-that-is-not-a-belief",
+                                              {"case": digest(self.case), "entry": prs})
+                                ctx.count("belief_mdp_zero_probability_entries_that_are_not_beliefs")
                             continue
                         if not abs(sum(prs) - 1) <= TOL or any(not (x >= 0) for x in prs):
                             self.fail("BeliefMDP.next_state_dist", "successor-belief-not-normalised", shape, f"successor {prs}", rec)
@@ -759,6 +846,7 @@ class Judge:
             self.run_filter(b0)
             self.run_inplace(b0)
             self.run_bmdp(b0)
+        self.verify_kept()
         if self.ok:
             self.ctx.count("cases_fully_conformant")
 
